@@ -1018,4 +1018,47 @@ theorem SetAccessToken_keeps_refresh (sd : Go.SessData) (tok : Go.Str) (fuel : N
     obtain ⟨j, rfl⟩ := hchunks i q hq
     exact h3 _ (chunkName_ne_other _ _ j (by decide)) (fun i => (chunkName_bases _ _ i j (by decide) (by decide)).symm)
 
+/-! ## the main session's string fields (state, nonce, verifier, e-mail, remembered URI) -/
+/-- the five setters and getters as translated are one pair, instantiated with the field's key -/
+def mainGet (k : Go.Str) (sd : Go.SessData) : Go.Str := (Go.asStr (Go.sessVal sd sd.mainSession k)).1
+def mainSet (k : Go.Str) (sd : Go.SessData) (v : Go.Str) : Go.SessData := Go.sessSetVal sd sd.mainSession k (Go.Any.str v)
+
+theorem accessors_are_instances (sd : Go.SessData) (v : Go.Str) :
+    Code.SessionData_GetCSRF sd = mainGet ['c','s','r','f'] sd ∧ Code.SessionData_SetCSRF sd v = mainSet ['c','s','r','f'] sd v ∧
+    Code.SessionData_GetNonce sd = mainGet ['n','o','n','c','e'] sd ∧ Code.SessionData_SetNonce sd v = mainSet ['n','o','n','c','e'] sd v ∧
+    Code.SessionData_GetCodeVerifier sd = mainGet ['c','o','d','e','_','v','e','r','i','f','i','e','r'] sd ∧
+    Code.SessionData_SetCodeVerifier sd v = mainSet ['c','o','d','e','_','v','e','r','i','f','i','e','r'] sd v ∧
+    Code.SessionData_GetEmail sd = mainGet ['e','m','a','i','l'] sd ∧ Code.SessionData_SetEmail sd v = mainSet ['e','m','a','i','l'] sd v ∧
+    Code.SessionData_GetIncomingPath sd = mainGet ['i','n','c','o','m','i','n','g','_','p','a','t','h'] sd ∧
+    Code.SessionData_SetIncomingPath sd v = mainSet ['i','n','c','o','m','i','n','g','_','p','a','t','h'] sd v :=
+  ⟨rfl, rfl, rfl, rfl, rfl, rfl, rfl, rfl, rfl, rfl⟩
+
+/-- what a setter stores is what its getter returns: the string itself, unchanged -/
+theorem mainGet_mainSet (k : Go.Str) (sd : Go.SessData) (v : Go.Str) : mainGet k (mainSet k sd v) = v := by
+  unfold mainGet mainSet
+  have : (Go.sessSetVal sd sd.mainSession k (Go.Any.str v)).mainSession = sd.mainSession := rfl
+  rw [this, sessVal_setVal_same]
+  rfl
+
+/-- ... and no other field's getter notices -/
+theorem mainGet_mainSet_other (k k' : Go.Str) (h : k' ≠ k) (sd : Go.SessData) (v : Go.Str) : mainGet k' (mainSet k sd v) = mainGet k' sd := by
+  unfold mainGet mainSet
+  have : (Go.sessSetVal sd sd.mainSession k (Go.Any.str v)).mainSession = sd.mainSession := rfl
+  rw [this, sessVal_setVal_key _ _ _ _ _ h]
+
+/-- nor do the token getters, the main session being another session than theirs -/
+theorem getTok_mainSet (S : Side) (hS : SideOk S) (fuel : Nat) (k : Go.Str) (sd : Go.SessData) (v : Go.Str)
+    (hp : S.ptr sd ≠ sd.mainSession) (hc : ∀ i q, (i, q) ∈ S.chunks sd → q ≠ sd.mainSession) :
+    getTok S fuel (mainSet k sd v) = getTok S fuel sd := by
+  have e : mainSet k sd v = { sd with reg := (mainSet k sd v).reg } := rfl
+  apply getTok_congr S fuel sd (mainSet k sd v)
+  · rw [e]; exact hS.ptr_reg _ _
+  · rw [e]; exact hS.chunks_reg _ _
+  · rfl
+  · show Go.regGet (Go.regSet sd.reg sd.mainSession _) _ = _
+    exact regGet_regSet_ne _ _ _ _ hp
+  · intro i q hq
+    show Go.regGet (Go.regSet sd.reg sd.mainSession _) _ = _
+    exact regGet_regSet_ne _ _ _ _ (hc i q hq)
+
 end Oidc.CodeRefine
